@@ -386,7 +386,6 @@ func (e *explorer) freshVar(prefix, sort string) string {
 		e.crs.declare(term, sort)
 	}
 	e.inputs = append(e.inputs, inputDecl{term, sort, ""})
-	e.symLive = true
 	return term
 }
 
